@@ -5,7 +5,7 @@
 #   then runs our quick check(s) against the patched tree.  Copies the artefacts to /verif/seeded/<ID>/.
 set -u
 id=$1; src=$(realpath "$2"); shift 2; extra="$*"
-out=/verif/seeded/$id; mkdir -p "$out"
+out=/verif/seeded/${SEED_DIR:-$id}; mkdir -p "$out"
 cp "$src/patch.diff" "$src/demo.py" "$out/" 2>/dev/null; cp "$src/notes.md" "$out/agent_notes.md" 2>/dev/null
 wt=$(mktemp -d /tmp/verif_seed_XXXXXX); rmdir "$wt"
 git -C /repo worktree add --detach -q "$wt" HEAD || exit 2
@@ -20,11 +20,14 @@ tests=""
 for f in $files; do
   case $f in
     fairlearn/metrics/*) tests="$tests test/unit/metrics";;
+    fairlearn/reductions/_moments/*) tests="$tests test/unit/reductions/moments test/unit/reductions/exponentiated_gradient/test_exponentiatedgradient_smoke.py test/unit/reductions/grid_search";;
+    fairlearn/reductions/_grid_search/*) tests="$tests test/unit/reductions/grid_search test/unit/reductions/test_smoke.py";;
+    fairlearn/reductions/_exponentiated_gradient/*) tests="$tests test/unit/reductions/exponentiated_gradient test/unit/reductions/test_smoke.py";;
     fairlearn/reductions/*) tests="$tests test/unit/reductions";;
     fairlearn/postprocessing/*) tests="$tests test/unit/postprocessing";;
     fairlearn/preprocessing/*) tests="$tests test/unit/preprocessing";;
     fairlearn/adversarial/*) tests="$tests test/unit/adversarial";;
-    fairlearn/utils/*) tests="$tests test/unit/utils test/unit/reductions test/unit/postprocessing test/unit/metrics";;
+    fairlearn/utils/*) tests="$tests test/unit/utils test/unit/reductions/moments test/unit/reductions/grid_search test/unit/postprocessing test/unit/metrics";;
   esac
 done
 tests=$(echo $tests | tr ' ' '\n' | sort -u | tr '\n' ' ')
